@@ -139,47 +139,58 @@ Section Sem.
   Definition in_range (n : nat) (lo : N) (hi : option N) : bool :=
     N.leb lo (N.of_nat n) && optb (fun h => N.leb (N.of_nat n) h) hi.
 
+  (* the applicator keywords, parametric in the validity of subschemas *)
+  Section Pieces.
+    Variable V : schema -> json -> bool.
+    Definition v_ref (p : applic schema) j := optb (fun s' => V s' j) (ap_ref p).
+    Definition v_allOf (p : applic schema) j := optb (fun l => forallb (fun s' => V s' j) l) (ap_allOf p).
+    Definition v_anyOf (p : applic schema) j := optb (fun l => existsb (fun s' => V s' j) l) (ap_anyOf p).
+    Definition v_oneOf (p : applic schema) j := optb (fun l => Nat.eqb (count (fun s' => V s' j) l) 1) (ap_oneOf p).
+    Definition v_not (p : applic schema) j := optb (fun s' => negb (V s' j)) (ap_not p).
+    Definition v_ite (p : applic schema) j :=
+      match ap_if p with
+      | Some i => if V i j then optb (fun s' => V s' j) (ap_then p) else optb (fun s' => V s' j) (ap_else p)
+      | None => true
+      end.
+    Definition v_props (p : applic schema) j :=
+      optb (fun l => on_obj (fun m =>
+              forallb (fun kv => forallb (fun ks => negb (str_eqb (fst kv) (fst ks)) || V (snd ks) (snd kv)) l) m) j)
+           (ap_props p).
+    Definition v_pprops (p : applic schema) j :=
+      optb (fun l => on_obj (fun m =>
+              forallb (fun kv => forallb (fun ps => negb (re (fst ps) (fst kv)) || V (snd ps) (snd kv)) l) m) j)
+           (ap_pprops p).
+    Definition v_pnames (p : applic schema) j :=
+      optb (fun s' => on_obj (fun m => forallb (fun kv => V s' (JStr (fst kv))) m) j) (ap_pnames p).
+    Fixpoint prefix_ok (l : list schema) (vs : list json) : bool :=
+      match l, vs with
+      | s' :: l', v :: vs' => V s' v && prefix_ok l' vs'
+      | _, _ => true
+      end.
+    Definition v_prefix (p : applic schema) j := optb (fun l => on_arr (prefix_ok l) j) (ap_prefix p).
+    Definition v_contains (a : assertions) (p : applic schema) j :=
+      optb (fun s' => on_arr (fun vs =>
+              in_range (count (V s') vs)
+                       (match a_minContains a with Some n => n | None => 1%N end)
+                       (a_maxContains a)) j) (ap_contains p).
+    Definition v_addl (p : applic schema) j :=
+      optb (fun s' => on_obj (fun m =>
+              forallb (fun kv => negb (is_additional (ap_props p) (ap_pprops p) (fst kv)) || V s' (snd kv)) m) j)
+           (ap_addl p).
+    Definition v_items (p : applic schema) j :=
+      optb (fun s' => on_arr (fun vs =>
+              forallb (V s') (skipn (match ap_prefix p with Some l => length l | None => 0 end) vs)) j)
+           (ap_items p).
+  End Pieces.
+
   Fixpoint valid (s : schema) (j : json) {struct s} : bool :=
     match s with
     | SBool b => b
     | SObj a p =>
       valid_assertions a j &&
-      optb (fun s' => valid s' j) (ap_ref p) &&
-      optb (fun l => forallb (fun s' => valid s' j) l) (ap_allOf p) &&
-      optb (fun l => existsb (fun s' => valid s' j) l) (ap_anyOf p) &&
-      optb (fun l => Nat.eqb (count (fun s' => valid s' j) l) 1) (ap_oneOf p) &&
-      optb (fun s' => negb (valid s' j)) (ap_not p) &&
-      match ap_if p with
-      | Some i =>
-        if valid i j then optb (fun s' => valid s' j) (ap_then p)
-        else optb (fun s' => valid s' j) (ap_else p)
-      | None => true
-      end &&
-      optb (fun l => on_obj (fun m =>
-              forallb (fun ks => match lookup (fst ks) m with
-                                 | Some v => valid (snd ks) v
-                                 | None => true
-                                 end) l) j) (ap_props p) &&
-      optb (fun l => on_obj (fun m =>
-              forallb (fun ps => forallb (fun kv => implb (re (fst ps) (fst kv)) (valid (snd ps) (snd kv))) m) l) j)
-           (ap_pprops p) &&
-      optb (fun s' => on_obj (fun m => forallb (fun kv => valid s' (JStr (fst kv))) m) j) (ap_pnames p) &&
-      optb (fun l => on_arr (fun vs =>
-              (fix go (l : list schema) (vs : list json) {struct l} : bool :=
-                 match l, vs with
-                 | s' :: l', v :: vs' => valid s' v && go l' vs'
-                 | _, _ => true
-                 end) l vs) j) (ap_prefix p) &&
-      optb (fun s' => on_arr (fun vs =>
-              in_range (count (valid s') vs)
-                       (match a_minContains a with Some n => n | None => 1%N end)
-                       (a_maxContains a)) j) (ap_contains p) &&
-      optb (fun s' => on_obj (fun m =>
-              forallb (fun kv => negb (is_additional (ap_props p) (ap_pprops p) (fst kv)) || valid s' (snd kv)) m) j)
-           (ap_addl p) &&
-      optb (fun s' => on_arr (fun vs =>
-              forallb (valid s') (skipn (match ap_prefix p with Some l => length l | None => 0 end) vs)) j)
-           (ap_items p)
+      v_ref valid p j && v_allOf valid p j && v_anyOf valid p j && v_oneOf valid p j && v_not valid p j &&
+      v_ite valid p j && v_props valid p j && v_pprops valid p j && v_pnames valid p j &&
+      v_prefix valid p j && v_contains valid a p j && v_addl valid p j && v_items valid p j
     end.
 
 End Sem.
